@@ -39,6 +39,10 @@ def gen_cases(rng, tier):
             rng.shuffle(powers)                         # terms written in any order
             coefs = [rng.choice(kinds) for _ in powers]
             cases.append({"expr": poly_text(powers, coefs), "var": "x", "deg": max(powers), "powers": sorted(powers)})
+            if rng.random() < 0.4:
+                # the chosen variable carries assumptions (Symbol("x", positive=True, ...)): it is then a different
+                # object from the plain symbol of the same name, and must still be recognised as the variable
+                cases[-1]["assume"] = rng.choice([["positive"], ["integer"], ["nonnegative"], ["positive", "integer"], ["real"]])
     # nested / factored forms whose expanded degree is known
     for d1 in range(0, 4):
         for d2 in range(0, 4):
